@@ -333,6 +333,77 @@ fn run_fsrc(seed: u64) -> Result<u64, Fail> {
     res
 }
 
+// FileSource<Float> reading from a named pipe: every write of the feeder is exactly one read() of the source (the feeder
+// waits for the harness between pieces), so reads end INSIDE samples and whole multiples of the sample size arrive while
+// part of a sample is still buffered -- every segmentation of the byte stream must give the same samples.
+fn run_fsrc_fifo(seed: u64) -> Result<u64, Fail> {
+    use std::io::Write;
+    let t = "fsrc";
+    let mut rng = Rng(seed * 2750159 + 9);
+    let dir = std::env::temp_dir().join(format!("verif_bx_fifo_{}_{}", std::process::id(), seed));
+    let _ = std::fs::remove_dir_all(&dir);
+    std::fs::create_dir_all(&dir).unwrap();
+    let path = dir.join("pipe");
+    let c = std::ffi::CString::new(path.to_str().unwrap()).unwrap();
+    if unsafe { libc::mkfifo(c.as_ptr(), 0o600) } != 0 {
+        let _ = std::fs::remove_dir_all(&dir);
+        return Ok(0); // no FIFOs here: nothing checked
+    }
+    let nsamp = 30 + rng.below(50);
+    let samples: Vec<Float> = (0..nsamp).map(|i| (i as Float) * 1.25 - 7.0).collect();
+    let bytes: Vec<u8> = samples.iter().flat_map(|v| v.to_le_bytes()).collect();
+    let mut pieces: Vec<Vec<u8>> = vec![];
+    let mut pos = 0;
+    while pos < bytes.len() {
+        let k = [1usize, 2, 3, 5, 6, 8, 4, 12, 7, 16][rng.below(10)].min(bytes.len() - pos);
+        pieces.push(bytes[pos..pos + k].to_vec());
+        pos += k;
+    }
+    let sizes: Vec<usize> = pieces.iter().map(|p| p.len()).collect();
+    let npieces = pieces.len();
+    let (tx_go, rx_go) = std::sync::mpsc::channel::<()>();
+    let (tx_done, rx_done) = std::sync::mpsc::channel::<()>();
+    let p2 = path.clone();
+    let feeder = std::thread::spawn(move || {
+        let mut f = std::fs::OpenOptions::new().write(true).open(&p2).unwrap();
+        for p in pieces {
+            if rx_go.recv().is_err() { break; }
+            f.write_all(&p).unwrap();
+            f.flush().unwrap();
+            let _ = tx_done.send(());
+        }
+        let _ = rx_go.recv(); // closed (end of file for the reader) only when the harness says so
+    });
+    let res = (|| -> Result<u64, Fail> {
+        let (mut src, out) = match FileSource::<Float>::new(&path) {
+            Ok(x) => x,
+            Err(e) => return Err(fail(t, "C14+C16", "file-opens", format!("fifo: {e}"), seed)),
+        };
+        let mut works = 0;
+        for _ in 0..npieces {
+            tx_go.send(()).unwrap();
+            rx_done.recv().unwrap();
+            let v = work(t, seed, &mut src)?;
+            works += 1;
+            if v == 2 || v == 4 {
+                return Err(fail(t, "C14", "samples-reassembled-for-every-read-segmentation", format!("reads of {sizes:?} bytes: work() returned {} before the data ended", if v == 2 { "EOF" } else { "an error" }), seed));
+            }
+        }
+        let _ = tx_go.send(()); // let the feeder close the pipe
+        let (rb, _) = out.read_buf().unwrap();
+        let got: Vec<Float> = rb.slice().to_vec();
+        if got.len() != nsamp || got.iter().zip(samples.iter()).any(|(a, b)| a.to_bits() != b.to_bits()) {
+            let k = got.iter().zip(samples.iter()).position(|(a, b)| a.to_bits() != b.to_bits()).unwrap_or(got.len().min(nsamp));
+            return Err(fail(t, "C14", "samples-reassembled-for-every-read-segmentation", format!("reads of {sizes:?} bytes: {} samples out, {nsamp} in the byte stream; first difference at sample {k}: {:?} vs {:?}", got.len(), got.get(k), samples.get(k)), seed));
+        }
+        Ok(works)
+    })();
+    drop(tx_go);
+    let _ = feeder.join();
+    let _ = std::fs::remove_dir_all(&dir);
+    res
+}
+
 // ------------------------------------------------------------------------------------------------ s2pdu
 fn run_s2pdu(seed: u64) -> Result<u64, Fail> {
     let t = "s2pdu";
@@ -648,6 +719,7 @@ fn run_sigmf(seed: u64) -> Result<u64, Fail> {
     std::fs::create_dir_all(&dir).unwrap();
     let mut works = 0;
     let mut res: Result<(), Fail> = Ok(());
+    let mut combo = 0usize;
     'outer: for archive in [false, true] {
         for nsamp in [0usize, 1, 777, 1_030_000] {
             for repeat in 0..=3u64 {
@@ -679,7 +751,9 @@ fn run_sigmf(seed: u64) -> Result<u64, Fail> {
                 let desc = format!("archive={archive} samples={nsamp} repeat={repeat}");
                 let mut got: Vec<Float> = vec![];
                 let mut eof = false;
-                let style = rng.below(3);
+                // every drain style on every size within one run, whatever the seed
+                combo += 1;
+                let style = (combo + seed as usize) % 3;
                 for _ in 0..20000 {
                     let v = match work(t, seed, &mut b) { Ok(v) => v, Err(mut f) => { f.what = format!("work() panicked: {desc}"); res = Err(f); break 'outer; } };
                     works += 1;
@@ -930,7 +1004,7 @@ fn bx_io() {
                 "s2pdu" => run_s2pdu(seed),
                 "auenc" => run_auenc(seed),
                 "tcp" => run_tcp(seed),
-                "fsrc" => { if i > 11 { break; } run_fsrc(seed) }
+                "fsrc" => { if i > 19 { break; } if i < 12 { run_fsrc(seed) } else { run_fsrc_fifo(seed) } }
                 "wpcr" => { if i > 0 { break; } run_wpcr(seed) }
                 "il2p" => run_il2p(seed),
                 "stream" => run_stream(seed),
